@@ -28,6 +28,9 @@ pub struct XEntry {
     pub content: Content,
     pub perm: Option<u32>,
     pub method: u16,
+    /// name in the central directory when it differs from the local header's (independent builder only)
+    #[serde(default)]
+    pub central_name: Option<String>,
 }
 
 #[derive(Serialize, Deserialize, Clone, Debug, PartialEq)]
@@ -129,6 +132,11 @@ fn gen_xname(r: &mut Rng, used: &[String]) -> String {
     let w = gen_word(r);
     match r.below(30) {
         0 => format!("../{w}"),
+        24 => "../sibling".into(),
+        25 => "../sibling_dir/inner".into(),
+        26 => "../sibling_dir".into(),
+        27 => format!("{}canary15", "../".repeat(2)),
+        28 => format!("{CANARY}/c0"),
         1 => format!("{}{w}", "../".repeat(r.range(1, 14) as usize)),
         2 => format!("d/{}{w}", "../".repeat(r.range(1, 6) as usize)),
         3 => format!("{CANARY}/{w}"),
@@ -207,11 +215,25 @@ impl Scenario for Extract {
                 4 => Some(0o700 | r.below(64) as u32),
                 _ => Some(r.below(1 << 12) as u32),
             };
-            entries.push(XEntry { name, kind, content: Content::gen(&mut r, *rs.clone().pick(&[16u64, 300, 5000])), perm, method: r.pickc(&METHODS) });
+            entries.push(XEntry { name, kind, content: Content::gen(&mut r, *rs.clone().pick(&[16u64, 300, 5000])), perm, method: r.pickc(&METHODS), central_name: None });
+        }
+        let by_writer = r.chance(1, 2);
+        if !by_writer && rs.chance(1, 5) {
+            // local and central headers disagree on a name: one safe, the other hostile
+            let k = r.usize_below(entries.len());
+            let hostile = gen_xname(&mut r, &used);
+            if r.chance(1, 2) {
+                entries[k].central_name = Some(hostile);
+            } else {
+                entries[k].central_name = Some(std::mem::replace(&mut entries[k].name, hostile));
+            }
+            if entries[k].perm.is_none() {
+                entries[k].perm = Some(0o777);
+            }
         }
         let seekable = r.chance(1, 2);
         let fault = if rs.chance(1, 6) { Some((r.below(200), r.pickc(&[Decision::Fail(EK::Other), Decision::EofEarly, Decision::Eintr]))) } else { None };
-        let case = XCase { entries, by_writer: r.chance(1, 2), seekable, policy: gen_policy_short(&mut r), fault };
+        let case = XCase { entries, by_writer, seekable, policy: gen_policy_short(&mut r), fault };
         serde_json::to_value(case).unwrap_or(Value::Null)
     }
 
@@ -252,6 +274,8 @@ impl Scenario for Extract {
         let _ = std::fs::create_dir_all(&target);
         let canary_abs = canary_dir.to_string_lossy().into_owned();
         let names: Vec<String> = c.entries.iter().map(|e| e.name.replace(CANARY, &canary_abs)).collect();
+        let cnames: Vec<String> = c.entries.iter().zip(names.iter()).map(|(e, n)| if c.by_writer { n.clone() } else { e.central_name.as_ref().map(|x| x.replace(CANARY, &canary_abs)).unwrap_or_else(|| n.clone()) }).collect();
+        let names_agree = names == cnames;
         // ---- archive
         let image: Vec<u8> = if c.by_writer {
             let mut ops = vec![];
@@ -269,7 +293,7 @@ impl Scenario for Extract {
             Source::Prog(ops).image()
         } else {
             let mut l = Layout::default();
-            for (e, name) in c.entries.iter().zip(names.iter()) {
+            for ((e, name), cname) in c.entries.iter().zip(names.iter()).zip(cnames.iter()) {
                 let ty: u32 = match e.kind {
                     1 => 0o040000,
                     2 => 0o120000,
@@ -280,6 +304,10 @@ impl Scenario for Extract {
                     Some(p) => (ty | p) << 16,
                     None => 0,
                 };
+                if cname != name {
+                    be.central_name = Some(Hex(cname.as_bytes().to_vec()));
+                    be.utf8 = !name.is_ascii() || !cname.is_ascii();
+                }
                 l.entries.push(be);
             }
             build(&l).image
@@ -363,13 +391,19 @@ impl Scenario for Extract {
             let faulty = c.fault.is_some() && io_h.as_ref().map(|io| stats(io).fired.values().sum::<u64>() > 0).unwrap_or(false);
             // unsafe names must make extraction fail
             let stream_ok = c.seekable || true;
-            let unsafe_at = names.iter().position(|n| !name_is_safe(n));
+            // the seekable extractor only ever sees the central names; the streaming one sees the local
+            // names for the files and the central names for the metadata pass
+            let unsafe_at = cnames.iter().position(|n| !name_is_safe(n)).or_else(|| if c.seekable { None } else { names.iter().position(|n| !name_is_safe(n)) });
             if let Some(i) = unsafe_at {
                 ctx.probe("unsafe_name_present");
                 if res.is_ok() && stream_ok {
-                    return viol("C07/unsafe-name-accepted", format!("extract() returned Ok although entry {i} has the unsafe name {:?}", names[i].chars().take(60).collect::<String>()));
+                    return viol("C07/unsafe-name-accepted", format!("extract() returned Ok although entry {i} has the unsafe name {:?} / {:?}", names[i].chars().take(60).collect::<String>(), cnames[i].chars().take(60).collect::<String>()));
                 }
                 return Verdict::Pass;
+            }
+            if !names_agree {
+                ctx.probe("local_central_names_disagree");
+                return Verdict::Pass; // confinement + unsafe-name rule only
             }
             if faulty {
                 return Verdict::Pass; // confinement + no panic + Err-or-complete only
